@@ -19,6 +19,7 @@ RULE = (
     "land at any instruction boundary (start, middle, before and after the terminator); deletions and replacements "
     "remove terminators, call sites, callees and whole blocks. Per case the output CFG is compared rule by rule "
     "with the control flow of the decoded output bytes; every recorded insert/delete is replayed on the Lean model"
+    "; one case in six may leave code running into data or off its section: for those only the closure clause (no edge starts or ends outside the module) is judged"
 )
 ASSUMPTIONS = [
     "alignment padding blocks that join_byte_intervals adds (nops only, no edge, no symbol) are transparent, like an .align directive of the listing",
